@@ -296,5 +296,45 @@ def run(prog, rep, tier='quick', config='default'):
                 else:
                     rep.violation('R2d', k + '|only-when-not-forced', where=c.where(), fn=val.name,
                                   detail='the discrepancy rejection is not confined to un-forced values: a forced superficial loss must be accepted')
+        # R2d': a specified loss is never accepted without either passing the discrepancy check or being forced
+        if hits:
+            cmp_blocks = set()
+            for c in val.calls:
+                m = re.search(r'PartialOrd::(gt|lt|ge|le)$', c.decl)
+                if m and len(c.args) == 2 and any(decimal_const(prog, val, a) is not None for a in c.args):
+                    cmp_blocks.add(c.bb)
+            entry = None
+            forced_edges = set()
+            for i, b in val.blocks.items():
+                t = b['term']
+                if not t or t['t'] != 'switch':
+                    continue
+                d = mir.provenance(val, t['discr'], follow_all_call_args=True)
+                if any(f == 'specified_superficial_loss' for of, f in d.fields) and not any(f == 'force' for of, f in d.fields) and entry is None:
+                    # the arm taken when a value is present: the discriminant value 1 (Some)
+                    some_t = [tg for v, tg in t['targets'] if v == 1] or [t['otherwise']]
+                    entry = some_t[0]
+                if any(f == 'force' for of, f in d.fields):
+                    neg_op = any(o2 == 'Not' for o2, _ in d.binops)
+                    true_t = t['otherwise']
+                    false_t = [tg for v, tg in t['targets'] if v == 0]
+                    # successor taken when force == true
+                    forced_edges.add(false_t[0] if (neg_op and false_t) else true_t)
+            errs = {i for i, b in val.blocks.items() for s2 in b['stmts'] if s2['dst']['l'] == 0 and s2['r']['rv'] == 'agg' and s2['r']['kind'].endswith('Result::Err')}
+            errs |= {c.bb for c in val.calls if c.short == 'from_residual'}
+            if entry is None or not forced_edges:
+                rep.violation('R2d', 'anchor-lost:specified-branch', fn=val.name, detail='anchor lost: the branch handling a user-specified superficial loss / its force flag')
+            else:
+                reach = {entry} | val.reachable_from(entry, avoid=cmp_blocks | forced_edges | errs)
+                leaks = [e for e in val.exits if e in reach]
+                if entry in cmp_blocks | forced_edges:
+                    leaks = []
+                if leaks:
+                    rep.violation('R2d', 'specified-loss-always-validated-or-forced', fn=val.name, where='%s:%d' % (val.file, val.line),
+                                  detail='a user-specified superficial loss can be accepted on a path that neither passes the 0.001 discrepancy check nor '
+                                         'requires the force marker (an early return precedes the validation)')
+                else:
+                    rep.ok('R2d', 'specified-loss-always-validated-or-forced', fn=val.name,
+                           detail='every non-error path through the specified-loss branch passes the discrepancy check or the force==true edge')
         if hits == 0:
             rep.violation('R2d', 'anchor-lost:tolerance-comparison', fn=val.name, detail='anchor lost: comparison of |computed - specified| with a Decimal constant')
